@@ -50,6 +50,21 @@ fn run_created(spec: &Spec) -> Outcome {
         }
         Err(e) => o.push("C11:reference-error", format!("{:?}: {e}", spec.kind)),
     }
+    // v6: the salt has the size RFC 9580 5.2.3 (table) fixes for the hash algorithm
+    if spec.key.is_v6() {
+        if let Ok(d) = codec::decode_packet(2, &a.sig_body) {
+            if let codec::Summary::Signature(si) = &d.summary {
+                let want = [16usize, 32, 24, 16, 32, 16][spec.hash as usize % 6];
+                let got = si.salt.map(|(s, e)| e - s).unwrap_or(0);
+                if got != want {
+                    o.push(
+                        "C11:created:v6-salt-size-not-rfc",
+                        format!("{:?} key {:?} hash {}: salt of {got} octets, RFC 9580 says {want}", spec.kind, spec.key, spec.hash),
+                    );
+                }
+            }
+        }
+    }
     // verification side: re-parse the signature, verify with a recording key
     match sigs::sig_from_body(&a.sig_body) {
         Ok(sig2) => {
@@ -333,6 +348,59 @@ fn run_inline(c: &InlineCase) -> Outcome {
     o
 }
 
+/// Version 6 signatures assembled by the reference with the salt size RFC 9580 fixes for the hash:
+/// the library must accept them (a library that disagrees about the table refuses them).
+#[derive(Clone, Debug, Hash, Serialize, Deserialize)]
+pub struct CraftedV6 {
+    pub key: KeyKind,
+    pub hash: u8,
+    pub text: bool,
+}
+
+fn run_crafted_v6(c: &CraftedV6) -> Outcome {
+    let cert = common::cert(c.key, 1);
+    let key = &cert.primary_key;
+    let pk = key.public_key();
+    let hash = common::msg::HASHES[c.hash as usize];
+    let salt_len = [16usize, 32, 24, 16, 32, 16][c.hash as usize % 6];
+    let salt: Vec<u8> = (0..salt_len).map(|i| 0x30 + i as u8).collect();
+    let mut hashed = sigs::raw_subpacket(2, false, &common::NOW.to_be_bytes());
+    let mut fp = vec![6u8];
+    fp.extend_from_slice(pk.fingerprint().as_bytes());
+    hashed.extend_from_slice(&sigs::raw_subpacket(33, false, &fp));
+    let doc: &[u8] = b"crafted\ndocument";
+    let content = if c.text { canon(doc) } else { doc.to_vec() };
+    let what = format!("{:?} hash {} text {}", c.key, c.hash, c.text);
+    let body = match sigs::craft_signature(key, 6, if c.text { 1 } else { 0 }, hash, &hashed, &[], &salt, &[&content[..]]) {
+        Ok(b) => b,
+        // a hash the key's algorithm refuses to sign with
+        Err(_) => return Outcome::trivial("raw-signer-refuses"),
+    };
+    let mut o = Outcome::ok("accepted");
+    match sigs::sig_from_body(&body) {
+        Ok(sig) => {
+            if let Err(e) = sig.verify(pk, doc) {
+                o.push("C11:crafted-v6:rfc-signature-rejected", format!("{what}: salt of {salt_len} octets: {e}"));
+            }
+        }
+        Err(e) => o.push("C11:crafted-v6:rfc-signature-does-not-parse", format!("{what}: salt of {salt_len} octets: {e}")),
+    }
+    // the same through the inline path
+    let mut lit = vec![if c.text { b't' } else { b'b' }, 0, 0, 0, 0, 0];
+    lit.extend_from_slice(doc);
+    let stream = [crate::reference::frame::frame_min(2, &body), crate::reference::frame::frame_min(11, &lit)].concat();
+    let inline = pgp::composed::Message::from_bytes(&stream[..]).map_err(|e| e.to_string()).and_then(|mut m| {
+        use std::io::Read as _;
+        let mut sink = Vec::new();
+        m.read_to_end(&mut sink).map_err(|e| e.to_string())?;
+        m.verify(pk).map(|_| ()).map_err(|e| e.to_string())
+    });
+    if let Err(e) = inline {
+        o.push("C11:crafted-v6:rfc-signature-rejected-inline", format!("{what}: {e}"));
+    }
+    o
+}
+
 pub fn check(ctx: &Ctx) {
     let quick = ctx.tier == Tier::Quick;
     let keys: Vec<(KeyKind, Vec<u8>)> = vec![
@@ -342,6 +410,7 @@ pub fn check(ctx: &Ctx) {
         (KeyKind::EcdsaP256V6, vec![0, 1]),
         (KeyKind::Ed448V6, vec![1, 4]),
         (KeyKind::Rsa2048V4, vec![0, 1, 5]),
+        (KeyKind::Rsa2048V6, vec![0, 5, 2, 4]),
         (KeyKind::EcdsaP521V4, vec![1]),
         (KeyKind::Ed25519LegacyV4, vec![0]),
     ];
@@ -436,7 +505,7 @@ pub fn check(ctx: &Ctx) {
     ctx.run_space(
         "created_and_verified",
         true,
-        "14 signature kinds (0x00, 0x01, 0x10-0x13 over user ids, 0x13 over a user attribute, third-party 0x13, 0x18, 0x28, 0x19, 0x1F, 0x20, 0x30) x 8 signer keys (v4/v6; Ed25519, Ed448, ECDSA P-256/P-521, EdDSA-legacy, RSA) x hashes x objects (documents incl. empty and mixed line endings; user ids of length 0, 1, 25, 255, 256 (70000 thorough); attributes) x hashed-area shapes (default, notation data sizing the area to 100..65400 octets, critical bit): created through the public signing API with a recording SigningKey, re-parsed and verified with a recording VerifyingKey; both digests = RFC 9580 5.2.4 digest computed from the wire bytes",
+        "14 signature kinds (0x00, 0x01, 0x10-0x13 over user ids, 0x13 over a user attribute, third-party 0x13, 0x18, 0x28, 0x19, 0x1F, 0x20, 0x30) x 9 signer keys (v4/v6; Ed25519, Ed448, ECDSA P-256/P-521, EdDSA-legacy, RSA v4 and v6 with SHA-224 among the hashes) x hashes x objects (documents incl. empty and mixed line endings; user ids of length 0, 1, 25, 255, 256 (70000 thorough); attributes) x hashed-area shapes (default, notation data sizing the area to 100..65400 octets, critical bit): created through the public signing API with a recording SigningKey, re-parsed and verified with a recording VerifyingKey; both digests = RFC 9580 5.2.4 digest computed from the wire bytes",
         specs.into_par_iter(),
         run_created,
     );
@@ -471,6 +540,21 @@ pub fn check(ctx: &Ctx) {
         "version 3 signatures (document binary/text, certifications 0x10/0x13 without the 0xB4 prefix, direct key) assembled by the reference from the RFC digest and the raw signer of 3 v4 keys: the library must verify them and hand the same digest to the key",
         v3.into_par_iter(),
         run_v3,
+    );
+    let mut cv = Vec::new();
+    for key in [KeyKind::Ed25519V6, KeyKind::EcdsaP256V6, KeyKind::Ed448V6, KeyKind::Rsa2048V6] {
+        for hash in 0..6u8 {
+            for text in [false, true] {
+                cv.push(CraftedV6 { key, hash, text });
+            }
+        }
+    }
+    ctx.run_space(
+        "crafted_v6_signatures",
+        true,
+        "version 6 document signatures assembled by the reference (RFC 9580 5.2.4 digest, salt of the size the RFC table fixes for the hash: 16 / 32 / 24 / 16 / 32 / 16 octets for SHA-256 / SHA-512 / SHA-384 / SHA3-256 / SHA3-512 / SHA-224) and signed with the raw signer of 4 v6 keys (Ed25519, ECDSA P-256, Ed448, RSA) x 6 hashes x binary / text: Signature::verify and the inline message path must accept them",
+        cv.into_par_iter(),
+        run_crafted_v6,
     );
     let mut ic = Vec::new();
     let inline_docs: Vec<Vec<u8>> = vec![
@@ -514,6 +598,7 @@ pub fn replay(space: &str, case: &Value) -> Option<Outcome> {
     match space {
         "created_and_verified" => replay_as(case, run_created),
         "v3_signatures_verify_only" => replay_as(case, run_v3),
+        "crafted_v6_signatures" => replay_as(case, run_crafted_v6),
         "inline_and_cleartext_verification" => replay_as(case, run_inline),
         _ => None,
     }
